@@ -1895,7 +1895,7 @@ def rule_r23(ctx):
     from .. import guards as G
     r = ctx.rule("C20.R23", "T9", "a counter of table entries follows the table: where a record keeps a count that is incremented on the "
                  "success edge of nni_id_set into one of its id maps (the count of entries: a limit is enforced with it), every "
-                 "decrement of that count is made where an entry is taken out of the same map (same basic block as the "
+                 "decrement of that count is made where an entry is taken out of the same map (every path to it passes the "
                  "nni_id_remove) -- an undo that decrements for an object whose insertion failed (the map could not grow) takes "
                  "the count below the number of entries: unsigned, it wraps, and the limit refuses everybody from then on", floor=1)
     prog = ctx.prog
@@ -1941,15 +1941,13 @@ def rule_r23(ctx):
             if cf not in counters:
                 continue
             n += 1
-            blk = f.blocks[t.b]
-            same = any(e is not None and any(m.get("k") == "call" and m.get("fn") == "nni_id_remove" and m["args"] and
-                                             last_field(f.expand(m["args"][0])) == counters[cf] for m in walk(f.expand(e)))
-                       for e in blk.elems)
+            rem = {(c.b, c.i) for c in f.calls("nni_id_remove") if c.node["args"] and last_field(f.expand(c.node["args"][0])) == counters[cf]}
+            same = bool(rem) and f.dominated_by((t.b, t.i), blocked=lambda b, i, e: (b, i) in rem)
             if same:
                 r.ob(f, "%s-- (line %s) where an entry leaves %s" % (cf, t.line, counters[cf]))
             else:
                 ctx.fail(r, f, "%s decremented away from the removal" % cf, t.line,
-                         "%s decrements %s at line %s, but not where an entry is removed from %s (nni_id_remove in the same block): "
+                         "%s decrements %s at line %s, but not behind the removal of an entry from %s (no nni_id_remove on every path to it): "
                          "%s is incremented only when nni_id_set succeeded, so an object whose insertion failed is uncounted "
                          "here all the same, and the unsigned count wraps" % (f.name, cf, t.line, counters[cf], cf))
     if not counters or n < 1:
